@@ -4,6 +4,7 @@ import Larking.Gen.Missing
 import Larking.Expected.C02
 import Larking.Lemmas.Complete
 import Larking.Lemmas.LexerComplete
+import Larking.Lemmas.Routes
 /-
   C02 — Routing completeness, literal-over-wildcard precedence, order independence.
 -/
@@ -180,6 +181,60 @@ example : lexPath Gen.tokenCap (renderPath [(⟨[47], 47, false, false, false, f
       (⟨[58], 58, false, false, false, false⟩, [⟨[59], 59, false, false, false, true⟩])])
     = .ok [⟨.slash, [47]⟩, ⟨.path, [97]⟩, ⟨.verb, [58]⟩, ⟨.path, [59]⟩, ⟨.eof, []⟩] := by decide
 
+/-- **Registered ⇒ dispatched, end to end over the trie.** For every accepted list of rules
+(each with its additional bindings), every binding `b` of every rule and every request whose
+tokens instantiate `b`'s template (`Routed`: literal and verb edges spell the tokens, every
+variable's sub-pattern matches its capture — `EdgeMatch` over the very edges `addRule` walks
+for `b`) with `b`'s kind (any kind when `b` binds `*`): the request is dispatched by the final
+trie, never 404 / 405 — whatever was registered before or after `b`, in whatever order.
+`g` states the one fact about the lexer this needs: `addVariable` keys a variable by the text
+of its pattern, and across the rule set equal pattern text means equal pattern tokens. -/
+theorem accepted_rules_are_routed (conv) (hconv : ∀ f t, conv f t = true) (g : Bytes → List Tok)
+    (rs : List (Rule × Nat × (List Bytes → Option Nat))) (t : Node)
+    (hb : buildAll Gen.tokenCap rs .empty = .ok t)
+    (hg : ∀ e ∈ rs, ∀ b ∈ e.1.bindings, BindingG Gen.tokenCap g e.2.2 b)
+    (e) (he : e ∈ rs) (b : Binding) (hbm : b ∈ e.1.bindings) (verb : Bytes) (toks : List Tok)
+    (hr : Routed Gen.tokenCap e.2.2 b verb toks) :
+    ∃ m caps, search conv verb t toks = .found m caps := by
+  obtain ⟨es', hw⟩ := buildAll_way Gen.tokenCap g rs .empty t hb (NFg_empty g) hg e he b hbm verb toks hr
+  exact way_dispatched conv hconv verb t toks es' hw 0 (buildAll_WF Gen.tokenCap rs .empty t (WF_empty 0) hb)
+
+/-- **No later registration takes a route away**: a request the router dispatches keeps being
+dispatched after any further accepted registrations (to the same or a more specific binding). -/
+theorem dispatch_survives_registrations (conv) (hconv : ∀ f t, conv f t = true)
+    (rs more : List (Rule × Nat × (List Bytes → Option Nat))) (t t' : Node)
+    (hb : buildAll Gen.tokenCap rs .empty = .ok t) (hm : buildAll Gen.tokenCap more t = .ok t')
+    (verb : Bytes) (toks : List Tok) (m : Meth) (caps : Caps)
+    (hs : search conv verb t toks = .found m caps) :
+    ∃ m' caps', search conv verb t' toks = .found m' caps' := by
+  obtain ⟨es, hre⟩ := search_sound conv verb t toks m caps hs
+  have hw := buildAll_ext Gen.tokenCap more t t' hm verb toks es (reach_way conv verb t toks m caps es hre)
+  have hwf := buildAll_WF Gen.tokenCap more t t' (buildAll_WF Gen.tokenCap rs .empty t (WF_empty 0) hb) hm
+  exact way_dispatched conv hconv verb t' toks es hw 0 hwf
+
+-- non-vacuity: GET "/v/{a=s/*}" and the request tokens of "/v/s/x"
+private def pu (c : Nat) : Rune := ⟨[UInt8.ofNat c], c, false, false, false, false⟩
+private def le (c : Nat) : Rune := ⟨[UInt8.ofNat c], c, true, true, true, true⟩
+private def bEx : Binding :=
+  { verb := [71, 69, 84], tmpl := [pu 47, le 118, pu 47, pu 123, le 97, pu 61, le 115, pu 47, pu 42, pu 125],
+    bodyOk := true, respOk := true, rule := 0 }
+private def esEx : List Edge :=
+  [.seg [47, 118], .var ⟨[115, 47, 42], [⟨.literal, [115]⟩, ⟨.slash, [47]⟩, ⟨.star, [42]⟩]⟩]
+private def reqEx : List Tok :=
+  [⟨.slash, [47]⟩, ⟨.path, [118]⟩, ⟨.slash, [47]⟩, ⟨.path, [115]⟩, ⟨.slash, [47]⟩, ⟨.path, [120]⟩, ⟨.eof, []⟩]
+example : bindingEdges Gen.tokenCap (fun _ => some 0) bEx = some esEx := by decide
+example : Routed Gen.tokenCap (fun _ => some 0) bEx [71, 69, 84] reqEx :=
+  ⟨esEx, by decide,
+    .seg ⟨.slash, [47]⟩ ⟨.path, [118]⟩ _ _
+      (.var _ ⟨.slash, [47]⟩ _ 4 [] rfl (by decide) (by decide) (.nil _ (by decide))),
+    Or.inr rfl⟩
+example : BindingG Gen.tokenCap (fun _ => [⟨.literal, [115]⟩, ⟨.slash, [47]⟩, ⟨.star, [42]⟩]) (fun _ => some 0) bEx := by
+  intro es he e hmem
+  have h2 : bindingEdges Gen.tokenCap (fun _ => some 0) bEx = some esEx := by decide
+  rw [h2] at he; injection he with he; subst he
+  simp only [esEx, List.mem_cons, List.mem_nil_iff, or_false] at hmem
+  rcases hmem with h | h <;> subst h <;> simp [edgeG]
+
 end Larking.Props.C02
 
 #print axioms Larking.Props.C02.translator_complete
@@ -191,3 +246,5 @@ end Larking.Props.C02
 #print axioms Larking.Props.C02.separators_not_path
 #print axioms Larking.Props.C02.upsertVar_order_independent
 #print axioms Larking.Props.C02.documented_paths_lex
+#print axioms Larking.Props.C02.accepted_rules_are_routed
+#print axioms Larking.Props.C02.dispatch_survives_registrations
